@@ -228,8 +228,11 @@ class History:
             if rng.random() < 0.4:
                 sc = [sc[0]] * 3
             of = [gen_offset(rng) for _ in range(3)]
-            cols = [[rng.choice([0, 1, -1, INT_MAX, INT_MIN, rng.randrange(INT_MIN, INT_MAX + 1), rng.randrange(-10 ** 5, 10 ** 5)])
-                     for _ in range(n)] for _ in range(3)]
+            if rng.random() < 0.65:      # moderate integers: most rescalings fit
+                cols = [[rng.choice([0, 1, -1, rng.randrange(-10 ** 6, 10 ** 6), rng.randrange(-10 ** 4, 10 ** 4)]) for _ in range(n)] for _ in range(3)]
+            else:
+                cols = [[rng.choice([0, 1, -1, INT_MAX, INT_MIN, rng.randrange(INT_MIN, INT_MAX + 1), rng.randrange(-10 ** 5, 10 ** 5)])
+                         for _ in range(n)] for _ in range(3)]
             init = {"fmt": fmt, "n": n, "scales": sc, "offsets": of, "cols": cols}
         self.init = init
         self.fmt = init["fmt"]
@@ -262,7 +265,25 @@ class History:
             return {"op": "MS", "axis": rng.randrange(3), "v": gen_scale(rng)}
         if r < 0.38:
             return {"op": "MO", "axis": rng.randrange(3), "v": gen_offset(rng)}
-        if r < 0.58:
+        if r < 0.44:
+            # las.xyz = (m, 3) array; values relative to the header's scaling (the one in force)
+            m = self.n
+            if rng.random() < (0.8 if self.n == 0 else 0.15):
+                m = self.n + rng.choice([1, 2, 3])
+            bad = rng.random() < 0.2
+            cols = []
+            for a in range(3):
+                s, o = float(las.header.scales[a]), float(las.header.offsets[a])
+                col = []
+                for i in range(m):
+                    if bad and rng.random() < 0.4:
+                        col.append(gen_value(rng, s, o)[0])
+                    else:
+                        X = rng.choice([0, 1, -1, rng.randrange(-10 ** 5, 10 ** 5), rng.randrange(-10 ** 5, 10 ** 5), INT_MAX, INT_MIN])
+                        col.append(float(Fraction(o) + (Fraction(X) + Fraction(rng.randrange(-49, 50), 100)) * Fraction(s)))
+                cols.append(col)
+            return {"op": "X", "cols": cols}
+        if r < 0.6:
             axis = rng.randrange(3)
             level = "A" if rng.random() < 0.7 else "P"
             src_s, src_o = (las.header.scales, las.header.offsets) if level == "A" else (las.points.scales, las.points.offsets)
@@ -276,7 +297,8 @@ class History:
                 if bad and rng.random() < 0.6:
                     vals.append(gen_value(rng, s, o)[0])
                 else:
-                    X = rng.choice([0, 1, -1, INT_MAX, INT_MIN, rng.randrange(INT_MIN, INT_MAX + 1), rng.randrange(-10 ** 5, 10 ** 5)])
+                    X = rng.choice([0, 1, -1, rng.randrange(-10 ** 5, 10 ** 5), rng.randrange(-10 ** 5, 10 ** 5),
+                                    INT_MAX, INT_MIN, rng.randrange(INT_MIN, INT_MAX + 1)])
                     v = float(Fraction(o) + (Fraction(X) + Fraction(rng.randrange(-49, 50), 100)) * Fraction(s))
                     vals.append(v)
             scalar = level == "P" and self.n > 0 and rng.random() < 0.3     # las.<axis> = scalar is not supported by laspy (len() of a float)
@@ -321,6 +343,8 @@ class History:
                 tgt = las if kind == "A" else las.points
                 val = op["vals"][0] if op.get("scalar") else np.array(op["vals"], dtype=np.float64)
                 setattr(tgt, AX[op["axis"]], val)
+            elif kind == "X":
+                las.xyz = np.array(op["cols"], dtype=np.float64).T.reshape(-1, 3)
             elif kind == "C":
                 las.change_scaling(scales=None if op["s"] is None else np.array(op["s"], dtype=np.float64),
                                    offsets=None if op["o"] is None else np.array(op["o"], dtype=np.float64))
@@ -379,6 +403,8 @@ class History:
             return f"{k}:{op['axis']}:{ftok(op['v'])}"
         if k in ("A", "P"):
             return f"{k}:{op['axis']}:{ftoks(op['vals'])}"
+        if k == "X":
+            return "X:" + ":".join(ftoks(c) for c in op["cols"])
         if k == "C":
             return f"C:{'-' if op['s'] is None else ftoks(op['s'])}:{'-' if op['o'] is None else ftoks(op['o'])}"
         if k == "W":
@@ -425,7 +451,7 @@ def op_json(op):
         if isinstance(v, float):
             d[k] = v.hex()
         elif isinstance(v, list):
-            d[k] = [x.hex() if isinstance(x, float) else x for x in v]
+            d[k] = [x.hex() if isinstance(x, float) else [y.hex() for y in x] if isinstance(x, list) else x for x in v]
         else:
             d[k] = v
     return d
@@ -437,7 +463,7 @@ def op_unjson(d):
         if isinstance(v, str) and k not in ("op", "via"):
             op[k] = float.fromhex(v)
         elif isinstance(v, list):
-            op[k] = [float.fromhex(x) if isinstance(x, str) else x for x in v]
+            op[k] = [float.fromhex(x) if isinstance(x, str) else [float.fromhex(y) for y in x] if isinstance(x, list) else x for x in v]
         else:
             op[k] = v
     return op
@@ -620,6 +646,43 @@ def oracle_step(op, before, out, after):
         if k == "A" and (after["rs"] != before["hs"] or after["ro"] != before["ho"]):
             return ("assign scaling", "after las.<axis> = ... the record does not use the header's scaling")
         return None
+    if k == "X":
+        m = len(op["cols"][0])
+        if m == 0:
+            return None
+        grown = [c + [0] * max(0, m - n) for c in before["ints"]]
+        fit, out_ = True, False
+        for a in range(3):
+            s, o = before["hs"][a], before["ho"][a]
+            for v in op["cols"][a]:
+                q = (Fraction(v) - o) / s
+                t = abs(q) * Fraction(1, 2 ** 51)
+                if not (INT_MIN <= rhe(q - t) and rhe(q + t) <= INT_MAX):
+                    fit = False
+                if (rhe(q - t) > INT_MAX and rhe(q + t) > INT_MAX) or (rhe(q - t) < INT_MIN and rhe(q + t) < INT_MIN):
+                    out_ = True
+        if after["rs"] != before["hs"] or after["ro"] != before["ho"]:
+            return ("assign xyz scaling", "after las.xyz = ... the record does not use the header's scaling")
+        if out[0] == "err":
+            if out[1] != "EOverflow":
+                return ("assign xyz raised", f"raised {out[1]}: {out[2]}")
+            if fit:
+                return ("assign xyz refused", "OverflowError although every value fits under the header's scaling")
+            return None
+        if out_:
+            return ("assign xyz wrapped", f"a value that does not fit was stored: {after['ints']}")
+        if m < n:
+            return ("assign xyz short", "a shorter array was accepted")
+        for a in range(3):
+            s, o = before["hs"][a], before["ho"][a]
+            if len(after["ints"][a]) != max(m, n):
+                return ("assign xyz length", f"{len(after['ints'][a])} points after assigning {m} to a record of {n}")
+            for X, v in zip(after["ints"][a], op["cols"][a]):
+                q = (Fraction(v) - o) / s
+                if abs(Fraction(X) - q) > Fraction(1, 2) + abs(q) * Fraction(1, 2 ** 51):
+                    return ("assign xyz half step", f"axis {AX[a]} stored {X} for (v - offset) / scale = {float(q)!r} under the header's scaling "
+                                                   f"(scale {float(s)!r}, offset {float(o)!r})")
+        return None
     if k == "C":
         ns = before["rs"] if op["s"] is None else frs(op["s"])
         no = before["ro"] if op["o"] is None else frs(op["o"])
@@ -706,7 +769,8 @@ def correspond(ctx):
         "values inside the int32 window, on both edges (exact Fraction edge +- {0, .49, .5, .51, 1, 2, random} steps, nearest double, "
         "nudged by 0..3 ulp), beyond and extreme (1e300, 1.7e308, 5e-324), assigned through attribute / slice / integer / mask / list "
         "index on x, y or z; presented values for random and extreme integers. histories: 1..8 operations over {header.scales/offsets "
-        "replaced by a fresh array, header.<axis>_scale/_offset edited in place, las.<axis> = values, las.points.<axis> = values, "
+        "replaced by a fresh array, header.<axis>_scale/_offset edited in place, las.<axis> = values (also longer than the record: it grows), "
+        "las.xyz = (m, 3) array, las.points.<axis> = values, "
         "change_scaling(scales?, offsets?), write, stream into a writer or appender with another scaling, whole or in chunks of 1..2} "
         "on LasData of 0..5 points (formats 0,1,3,6,7) with integers including INT_MIN/INT_MAX; values chosen relative to the scaling "
         "in force so that most fit and some overflow. non-trivial = an edge/beyond value, or a history with a rescaling write, an "
@@ -760,6 +824,9 @@ def correspond(ctx):
                 ctx.count("out:" + (mo[1] if mo[0] == "err" else mo[0]))
                 if mo[0] == "err" or (mo[0] == "file" and mo[1]["ints"] != after["ints"]):
                     rescaled = True
+                if op["op"] in ("W", "S"):
+                    ctx.count("write:" + ("overflow" if mo[0] == "err" else "empty" if not after["ints"][0] else
+                                          "same scaling" if (mo[1]["scales"], mo[1]["offsets"]) == (after["rs"], after["ro"]) else "rescaled"))
                 ok = mo[0] == out[0]
                 if ok and mo[0] == "err":
                     ok = mo[1] == out[1]
@@ -773,7 +840,7 @@ def correspond(ctx):
                     bad = (i, f"{d} after {op['op']}", str(parse_state(mo_state)[d])[:200], str(after[d])[:200])
                     break
         edited = any(k in ("RS", "RO", "MS", "MO") for k in kinds)
-        ctx.case(h.command(), nontrivial=rescaled or (edited and any(k in ("A", "W", "S", "C") for k in kinds)),
+        ctx.case(h.command(), nontrivial=rescaled or (edited and any(k in ("A", "X", "W", "S", "C") for k in kinds)),
                  sample={"history": [h.op_tok(op)[:60] for op, _, _ in h.steps], "points": h.n})
         if bad:
             dis.append({"kind": f"history: {bad[1]}", "input": {"init": init_json(h.init), "ops": [op_json(op) for op, _, _ in h.steps], "at": bad[0]},
